@@ -256,12 +256,39 @@ def r3(F, R):
             if ok_inc and i_base:
                 nm = A.describe_operand(kn, incs[0][1]["rv"]["a"])
                 R.check(nm.split(".")[0] == i_base.split(".")[0], "drain-predicate/same-counter", kn, f"{nm}", f"the limit test reads {i_base} but the take increments {nm}")
-    R.floor(6)
+    # fall-through: when the Serial drain hands out nothing, the Concurrent queue is still drained
+    inv = drain_invocations(F, get)
+    ser = [x for x in inv if x[3] == "Serial"]
+    con = [x for x in inv if x[3] == "Concurrent"]
+    fall = False
+    if len(ser) == 1 and len(con) == 1:
+        for s2, t2 in get.calls(lambda t2: callee_is(t2, r"Option::<.*>::or_else$", r"Option::<.*>::or$")):
+            r_cl = A.closure_of_operand(F, get, t2["args"][0])
+            rsl = A.slice_back(get, [t2["args"][0]])
+            r_cls = [F.body(rv["def"]) for _, rv in rsl.aggs if rv.get("agg") == "closure"]
+            a_cl = A.closure_of_operand(F, get, t2["args"][1])
+            in_recv = any(ser[0][0] in F.nested(c) for c in r_cls if c is not None)
+            in_arg = a_cl is not None and con[0][0] in F.nested(a_cl)
+            if in_recv and in_arg:
+                fall = True
+        if ser[0][0] is con[0][0]:
+            # sequential form in one body: the concurrent drain is reachable when the serial one produced nothing
+            fall = fall or ser[0][0].site_reaches(ser[0][1], con[0][1])
+    R.check(fall, "concurrent-fallback", con[0][1] if con else get, "serial.or_else(concurrent): free slots are filled with concurrent scenarios when no serial one can start",
+            "when the Serial queue yields nothing (nothing ready / something in flight) GET does not fall through to the Concurrent queue: free slots stay empty")
+    R.floor(7)
 
 
 def r4(F, R):
     ex = roles.execute(F)
     infl = [a for a in A.awaits(ex) if re.search(r"FuturesUnordered<", a.fut_type)]
+    ordered = [a for a in A.awaits(ex) if re.search(r"FuturesOrdered<|stream::(Buffered|BufferUnordered)<|JoinAll<|future::Join", a.fut_type)]
+    if not infl and ordered:
+        R.violation("refill-after-each-completion", ordered[0].poll_site,
+                    f"the in-flight set is awaited through {ordered[0].fut_type[:80]}: completions are not reported one by one in completion order, "
+                    "so a finished scenario's slot is not refilled until earlier-started ones finish")
+        R.floor(1)
+        return
     if len(infl) != 1:
         raise Unverifiable("in-flight await")
     a = infl[0]
